@@ -99,21 +99,24 @@ Fixpoint watch_keys (c : nat) (ks : list bytes) (s : server) : server :=
 (* the body of UNWATCH: UnWatch(conn) with no keys only clears the connection's map *)
 Definition unwatch_marker : Z -> db -> bres := fun _ d => BOk [WOK] d.
 
-(* one command on one connection.  Result: new server, what was written, and whether the
-   step is inside the model *)
+(* wrapper of Serve: the signals raised by the command reach the watchers; an error written
+   while in MULTI marks the transaction *)
+Definition finish_cmd (n0 : nat) (c : nat) (res : server * list wact) : option (server * list wact) :=
+  let '(s1, acts) := res in
+  let s2 := apply_signals n0 s1 in
+  let y := get_conn c s2 in
+  let y' := if has_err acts && (c_prepare y || c_error y)
+            then {| c_prepare := c_prepare y; c_error := true; c_queue := c_queue y; c_watch := c_watch y |}
+            else y in
+  Some (put_conn c y' s2, acts).
+
+(* one command on one connection.  Result: new server and what was written, or None when
+   the step is outside the model *)
 Definition serve (c : nat) (name : bytes) (args : list bytes) (now : Z) (s : server)
   : option (server * list wact) :=
   let x := get_conn c s in
   let n0 := length (events (s_db s)) in
-  (* wrapper of Serve: an error written while in MULTI marks the transaction *)
-  let finish (res : server * list wact) : option (server * list wact) :=
-      let '(s1, acts) := res in
-      let s2 := apply_signals n0 s1 in
-      let y := get_conn c s2 in
-      let y' := if has_err acts && (c_prepare y || c_error y)
-                then {| c_prepare := c_prepare y; c_error := true; c_queue := c_queue y; c_watch := c_watch y |}
-                else y in
-      Some (put_conn c y' s2, acts) in
+  let finish := finish_cmd n0 c in
   let exec_command (body : Z -> db -> bres) (pre : list wact) : option (server * list wact) :=
       if negb (c_prepare x) then
         match run_body body now (s_db s) with
